@@ -305,6 +305,9 @@ pub struct JoinSummary {
     pub has_actor: bool,
     /// the actor's own log of the hooks it ran
     pub actor_log: Vec<String>,
+    /// how many times the framework evaluated `actor.on_run(..)` (called the method, polled or not)
+    #[serde(default)]
+    pub run_evals: u32,
     pub panic_msg: Option<String>,
     /// accessor laws held on this value
     pub laws_ok: bool,
